@@ -11,9 +11,10 @@ import (
 	"strings"
 
 	"com.tuntun.rangers/node/src/common"
+	"com.tuntun.rangers/node/src/consensus/access"
 	"com.tuntun.rangers/node/src/executor"
-	"com.tuntun.rangers/node/src/middleware/db"
-	"com.tuntun.rangers/node/src/middleware/types"
+	"com.tuntun.rangers/node/src/middleware"
+		"com.tuntun.rangers/node/src/middleware/types"
 	"com.tuntun.rangers/node/src/service"
 	"com.tuntun.rangers/node/src/storage/account"
 	"com.tuntun.rangers/node/src/utility"
@@ -24,7 +25,6 @@ import (
 const refundDelay = 36000 // service.refundHeight (unexported); checked by the tie: escrow dump uses it
 
 type world struct {
-	triedb  account.AccountDatabase
 	adb     *account.AccountDB
 	height  uint64
 	heights []uint64 // block heights of this episode (escrow heights dumped = h+refundDelay)
@@ -34,12 +34,14 @@ type world struct {
 	accts   [][]byte
 	addrs   []common.Address
 	txSeq   uint64
+	root    common.Hash // last committed state root (what a discarded block execution falls back to)
 }
 
 func newWorld(height uint64) *world {
-	mem, _ := db.NewMemDatabase()
-	w := &world{triedb: account.NewDatabase(mem)}
-	adb, err := account.NewAccountDB(common.Hash{}, w.triedb)
+	// every AccountDB of the harness comes from the node's AccountDBManager, so that the consensus readers
+	// (consensus/access.MinerPoolReader resolves a state root through the same manager) can open the committed roots
+	w := &world{}
+	adb, err := w.open(common.Hash{})
 	if err != nil {
 		panic(err)
 	}
@@ -49,6 +51,37 @@ func newWorld(height uint64) *world {
 	w.newCtx()
 	common.SetBlockHeight(height)
 	return w
+}
+
+func (w *world) open(root common.Hash) (*account.AccountDB, error) {
+	return middleware.AccountDBManagerInstance.GetAccountDBByHash(root)
+}
+
+var poolReader *access.MinerPoolReader
+
+// readerStr: what the consensus layer sees of the last COMMITTED state through consensus/access/miner_access.go:
+// GetCandidateMiners (validators that may join a group at height h), GetProposeMiner per id, GetTotalStake.
+func (w *world) readerStr() string {
+	if poolReader == nil {
+		poolReader = access.NewMinerPoolReader()
+	}
+	h := w.height
+	cs := make([]string, 0)
+	for _, c := range poolReader.GetCandidateMiners(h, w.root) {
+		cs = append(cs, fmt.Sprintf("%d/%d/%d", c.Stake, c.ApplyHeight, c.MinerType))
+	}
+	sort.Strings(cs)
+	ps := make([]string, 0)
+	for _, id := range w.ids {
+		acc, _ := middleware.AccountDBManagerInstance.GetAccountDBByHash(w.root)
+		pm := service.MinerManagerImpl.GetMinerById(id, common.MinerTypeProposer, acc)
+		if pm == nil {
+			ps = append(ps, "nil")
+		} else {
+			ps = append(ps, fmt.Sprintf("%d/%d/%d", pm.Stake, pm.ApplyHeight, pm.Type))
+		}
+	}
+	return fmt.Sprintf("%s|%s|%d", strings.Join(cs, ","), strings.Join(ps, ","), poolReader.GetTotalStake(h, w.root))
 }
 
 func (w *world) newCtx() {
@@ -214,16 +247,42 @@ func (w *world) endBlock(next uint64) string {
 	if err != nil {
 		return "commit-error"
 	}
-	adb, err := account.NewAccountDB(root, w.triedb)
+	adb, err := w.open(root)
 	if err != nil {
 		return "reopen-error"
 	}
 	w.adb = adb
+	w.root = root
 	w.height = next
 	w.heights = append(w.heights, next)
 	common.SetBlockHeight(next)
 	w.newCtx()
 	return "ok"
+}
+
+// rewind discards the block being executed (as when a cast block is not adopted or a fork is abandoned): a fresh
+// AccountDB over the last committed root, a fresh context. Whatever lives outside the account state stays.
+func (w *world) rewind() string {
+	adb, err := w.open(w.root)
+	if err != nil {
+		return "reopen-error"
+	}
+	w.adb = adb
+	w.newCtx()
+	return "ok"
+}
+
+func (w *world) pkStr() string {
+	kk := make([]string, 0)
+	for _, id := range w.ids {
+		v, err := service.MinerManagerImpl.GetPubkey(id)
+		if err != nil {
+			kk = append(kk, "nil")
+		} else {
+			kk = append(kk, hx.Hex(v))
+		}
+	}
+	return strings.Join(kk, ",")
 }
 
 func minerStr(m *types.Miner) string {
@@ -246,7 +305,10 @@ func (w *world) iterStr(kind byte) string {
 	return strings.Join(parts, ",")
 }
 
-func (w *world) dump() string {
+func (w *world) dump() string { return w.dumpParts(true) }
+
+// dumpParts(false) leaves out balances and escrow (account-storage reads outside the registry readers).
+func (w *world) dumpParts(all bool) string {
 	mm := service.MinerManagerImpl
 	var sb strings.Builder
 	sb.WriteString("P=" + w.iterStr(common.MinerTypeProposer))
@@ -291,6 +353,9 @@ func (w *world) dump() string {
 		sb.WriteString(fmt.Sprintf(" T=%d/%d/%s/%s/%s", total, len(detail), strings.Join(ds, ","), strings.Join(pl, ","), strings.Join(vl, ",")))
 	}
 	b := make([]string, 0)
+	if !all {
+		return sb.String() + " K=" + w.pkStr()
+	}
 	for _, ad := range append(append([]common.Address{}, w.addrs...), common.FeeAccount) {
 		b = append(b, w.adb.GetBalance(ad).String())
 	}
@@ -325,16 +390,12 @@ func (w *world) dump() string {
 		}
 	}
 	sb.WriteString(" R=" + strings.Join(r, ","))
-	kk := make([]string, 0)
-	for _, id := range w.ids {
-		v, err := mm.GetPubkey(id)
-		if err != nil {
-			kk = append(kk, "nil")
-		} else {
-			kk = append(kk, hx.Hex(v))
-		}
+	sb.WriteString(" K=" + w.pkStr())
+	x := hx.Guard(func() string { return w.readerStr() })
+	if strings.HasPrefix(x, "PANIC") {
+		x = "PANIC"
 	}
-	sb.WriteString(" K=" + strings.Join(kk, ","))
+	sb.WriteString(" X=" + x)
 	return sb.String()
 }
 
@@ -370,13 +431,50 @@ var badData = map[string][]string{
 	"add-json":      {"", "{", "[1]", `{"stake":-5}`, `{"stake":"7"}`},
 	"chacc-json":    {"", "nul", `{"account":5}`},
 	"refund-json":   {"", "{", `{"Amount":5}`, `[]`},
-	"refund-amount": {`{"Amount":"-1","MinerId":"0x01"}`, `{"Amount":"1.5","MinerId":"0x01"}`, `{"Amount":"","MinerId":"0x01"}`, `{"Amount":"18446744073709551616","MinerId":"0x01"}`, `{}`, `null`},
+	"refund-amount": {`{"Amount":"-1","MinerId":"0x01"}`, `{"Amount":"1.5","MinerId":"0x01"}`, `{"Amount":"","MinerId":"0x01"}`, `{"Amount":"18446744073709551616","MinerId":"0x01"}`, `{}`, `null`,
+		`{"Amount":"+5","MinerId":"0x01"}`, `{"Amount":" 5","MinerId":"0x01"}`, `{"Amount":"0x10","MinerId":"0x01"}`, `{"Amount":"1e3","MinerId":"0x01"}`},
 }
 var badType = map[string]int32{"apply-json": types.TransactionTypeMinerApply, "add-json": types.TransactionTypeMinerAdd,
 	"chacc-json": types.TransactionTypeMinerChangeAccount, "refund-json": types.TransactionTypeMinerRefund, "refund-amount": types.TransactionTypeMinerRefund}
 
 type interp struct {
 	w *world
+}
+
+var devConfig *common.ChainConfig
+
+// setConfig switches the fork schedule to one of the three networks' (values copied from common/version.go;
+// the T-gen fact `forkFlagsOnPath` pins which flags the miner path reads). Sessions under mainnet/robin run at
+// heights beyond every proposal of that network, where all flags on the path have the values the model fixes.
+func setConfig(name string) bool {
+	if devConfig == nil {
+		c := common.LocalChainConfig
+		devConfig = &c
+	}
+	c := *devConfig
+	set := func(chain string, v []uint64) {
+		c.ChainId, c.NetworkId = chain, chain
+		c.Proposal001Block, c.Proposal002Block, c.Proposal003Block, c.Proposal004Block, c.Proposal005Block = v[0], v[1], v[2], v[3], v[4]
+		c.Proposal006Block, c.Proposal007Block, c.Proposal008Block, c.Proposal009Block, c.Proposal010Block = v[5], v[6], v[7], v[8], v[9]
+		c.Proposal011Block, c.Proposal012Block, c.Proposal013Block, c.Proposal014Block, c.Proposal015Block = v[10], v[11], v[12], v[13], v[14]
+		c.Proposal016Block, c.Proposal017Block, c.Proposal018Block, c.Proposal019Block, c.Proposal020Block = v[15], v[16], v[17], v[18], v[19]
+		c.Proposal021Block, c.Proposal022Block, c.Proposal023Block, c.Proposal024Block, c.Proposal025Block = v[20], v[21], v[22], v[23], v[24]
+		c.Proposal026Block, c.Proposal027Block = v[25], v[26]
+	}
+	const never = ^uint64(0)
+	switch name {
+	case "dev":
+	case "mainnet":
+		set("2025", []uint64{894116, 3353000, 3830000, 5310000, 10293600, 16733000, 16082000, 16082000, 16733000, never, 11750354, 22815000,
+			28998000, 48081000, 53015000, 54038500, 54038500, 55959500, never, 61794000, 61202000, 62606000, 63100000, 62575384, 63311000, 64666400, 69329000})
+	case "robin":
+		set("9527", []uint64{0, 2802000, 3380000, 5310000, 10003000, 12582000, 14261000, 16058000, 16740000, 19632000, never, 23120000,
+			29063000, 0, 61205000, 62320000, 62997000, 65795000, 66114000, 75248100, 74312000, 76005000, 77826000, 0, 77920000, 79365500, 84150000})
+	default:
+		return false
+	}
+	common.LocalChainConfig = c
+	return true
 }
 
 func (ip *interp) exec(line string) string {
@@ -386,6 +484,12 @@ func (ip *interp) exec(line string) string {
 	}
 	u64 := func(s string) uint64 { v, _ := strconv.ParseUint(s, 10, 64); return v }
 	bs := func(s string) []byte { b, _ := hx.UnHex(s); return b }
+	if t[0] == "config" {
+		if len(t) == 2 && setConfig(t[1]) {
+			return "ok"
+		}
+		return "bad-op"
+	}
 	if t[0] != "reset" && ip.w == nil {
 		return "bad-op"
 	}
@@ -433,6 +537,8 @@ func (ip *interp) exec(line string) string {
 		}
 		op := map[string]byte{"vmstake": 0xee, "vmunstake": 0xef, "vmunstakeall": 0xeb}[t[0]]
 		return w.runStakeOp(op, bs(t[1]), bs(t[2]), amt)
+	case "rewind":
+		return w.rewind()
 	case "endblock":
 		return w.endBlock(u64(t[1]))
 	case "dump":
